@@ -19,6 +19,9 @@ from .common import *
 from .equiv import *
 
 
+ORBIT_LIMIT = None
+
+
 def _is_fresh_leaf(v):
     from ..poly import leaf_of
 
@@ -67,6 +70,23 @@ def symbolise(world, v, seen=None, path="p"):
 
 
 def check_layer(it, layer_fn, sig, D, N, flags, problems, cfg, what, shift=None):
+    """Generators on every axis-permutation of the extents N: a non-cubic box and its permuted copies form one orbit,
+    and f(g.x) == g.f(x) for the generators on each member gives it for the whole group on that orbit."""
+    shapes = sorted(set(itertools.permutations(N)))
+    shapes.remove(tuple(N))
+    if ORBIT_LIMIT is not None and D == 3:
+        shapes = shapes[:ORBIT_LIMIT - 1]  # quick tier: the primary orientation and one permuted copy in D=3
+    for Ns in [tuple(N)] + shapes:
+        if shift is not None and Ns != tuple(N):
+            # shifts are stated along the first axis with amounts tied to N: only on the primary orientation
+            _check_layer_on(it, layer_fn, sig, D, Ns, flags, problems, cfg, what, None)
+        else:
+            _check_layer_on(it, layer_fn, sig, D, Ns, flags, problems, cfg, what, shift)
+        if problems:
+            return
+
+
+def _check_layer_on(it, layer_fn, sig, D, N, flags, problems, cfg, what, shift=None):
     xb = {t: block("x", t, (c,), N, D) for t, c in sig}
     order = [t for t, _ in sig]
     x = make_multi(it, order, xb, D, flags)
@@ -112,7 +132,7 @@ def worker(job):
     problems = []
     flags = (True,) * D
     if kind in ("GroupNorm", "LayerNorm"):
-        N = (3, 3) if D == 2 else (2, 2, 2)
+        N = (2, 3) if D == 2 else (2, 2, 3)
         layer = attempt(lambda: ml.GroupNorm(sig, D, param) if kind == "GroupNorm" else ml.LayerNorm(sig, D))
         if isinstance(layer, Rejected):
             problems.append(("rejected", "constructor rejected: %s" % layer.exc, None))
@@ -120,7 +140,7 @@ def worker(job):
         symbolise(w, layer)
         check_layer(it, layer, sig, D, N, flags, problems, cfg, kind)
     elif kind == "VectorNeuronNonlinear":
-        N = (2, 3) if D == 2 else (2, 2, 2)
+        N = (2, 3) if D == 2 else (2, 2, 3)
         act = getattr(it.get_module("jax").nn, param)
         layer = attempt(lambda: ml.VectorNeuronNonlinear(sig, D, act, key=Key(0)))
         if isinstance(layer, Rejected):
@@ -129,12 +149,12 @@ def worker(job):
         symbolise(w, layer)
         check_layer(it, layer, sig, D, N, flags, problems, cfg, kind)
     elif kind == "MaxNormPool":
-        N = (4, 4) if D == 2 else (2, 2, 4)
+        N = (2, 4) if D == 2 else (2, 2, 4)
         layer = ml.MaxNormPool(param, True)
         sh = tuple(param if i == 0 else 0 for i in range(D))
         check_layer(it, layer, sig, D, N, flags, problems, cfg, kind, shift=(sh, tuple(1 if i == 0 else 0 for i in range(D))))
     elif kind in ("max_pool", "max_pool_cmp", "average_pool", "unpool"):
-        N = (4, 4) if D == 2 else (2, 2, 4)
+        N = (2, 4) if D == 2 else (2, 2, 4)
         if kind == "unpool":
             N = (2, 3) if D == 2 else (2, 2, 3)
         MI = geom.MultiImage
@@ -212,6 +232,8 @@ def run(ctx):
     pm.func(LAYERS_MOD, "_group_norm_K1")
     pm.func(LAYERS_MOD, "GroupNorm.__init__")
     th = ctx.thorough()
+    global ORBIT_LIMIT
+    ORBIT_LIMIT = None if th else 2
     jobs = []
     for D in (2, 3):
         norm_sigs = [(((0, 0), 2), ((1, 0), 2)), (((0, 1), 2),), (((1, 1), 2), ((0, 0), 4))]
